@@ -450,7 +450,14 @@ def wrapper_full_data_obligations(tier='quick'):
                 for nm, series in zip(names, r):
                     a = np.asarray(series, dtype=object)
                     first = a[..., 0] if a.ndim >= 1 else a
-                    want = ic_oracle(nm, G, status, np.shape(first))
+                    try:
+                        want = ic_oracle(nm, G, status, np.shape(first))
+                    except IndexError:
+                        # the returned series has no slot for a degree class / neighbour count that the graph has
+                        bad.append(dict(graph=gname, edges=[[str(x), str(y)] for x, y in G.edges()], degrees=sorted(set(dict(G.degree()).values())),
+                                        arguments={k: [str(x) for x in v] for k, v in kw.items()},
+                                        observed='series `%s` has shape %s at tmin: no entry for some degree class of the graph' % (nm, np.shape(first))))
+                        continue
                     if want is None:
                         continue
                     checked.add(nm)
